@@ -103,7 +103,7 @@ def r2_one_function(repo):
     for n, a in st:
         gs = _g(n)
         ok = ("self._method_selection", False) in gs and any(
-            not pol and s in ("namespace != self._namespace", "self._namespace != namespace") for s, pol in gs)
+            pol and s in ("namespace == self._namespace", "self._namespace == namespace") for s, pol in gs)
         obs.append(Ob("C04-R2", "store:%s:only-in-the-selected-function" % a, _w(f, n), ok,
                       "the store must be unreachable in the collection pass and in functions other than the selected one; "
                       "guards %s" % gs))
@@ -253,8 +253,11 @@ def r5_message(repo):
         st = _stores(f)
         newname = src(st[0][0].value) if st else None
         a0 = args[0].args[0] if isinstance(args[0], ast.Call) and args[0].args else args[0]
-        olddefs = g.defs_reaching(a0.id, fe[0]) if isinstance(a0, ast.Name) else []
-        old_ok = bool(olddefs) and all(isinstance(d[1], ast.Name) and d[1].id == "node_type" for d in olddefs)
+        # the "old type" of the message is the very value the irrelevant type was searched for
+        fi = [c for c in calls_in(f.node) if call_name(c) == "find_irrelevant_type"]
+        prov = Prov(f.node)
+        leaves = lambda e: sorted({src(l) for l in prov.sources(e) if isinstance(l, ast.AST)})
+        old_ok = len(fi) == 1 and bool(fi[0].args) and leaves(a0) == leaves(fi[0].args[0]) and bool(leaves(a0))
         ok = len(args) == 3 and old_ok and newname in src(args[1]) and src(args[2]).endswith(".node_id") and \
             src(args[2]).split(".")[0] == src(st[0][0].targets[0]).split(".")[0]
         msg = ("message arguments must be (old type, new type, id of the mutated node); found %s" % [src(a) for a in args])
